@@ -143,6 +143,8 @@ func (c *Client[Req, Res]) CallServerStream(ctx context.Context, request *Reques
 		return nil, err
 	}
 	if err := conn.CloseRequest(); err != nil {
+		// The caller gets no stream to close, so release the response here.
+		_ = conn.CloseResponse()
 		return nil, err
 	}
 	return &ServerStreamForClient[Res]{conn: conn}, nil
